@@ -122,7 +122,15 @@ func main() {
 				if ctr == nil {
 					ctr = e.sweepContract(fn, "C01")
 				}
-				g = e.verifyWith(fn, ctr, &genOptions{safety: true}, func(g *gen) { g.astValid = true; g.nilArgs = true; g.options.safety = true })
+				var ics []*Contract
+				if fn.Signature.Recv() != nil {
+					for key, ic := range e.ctrs {
+						if strings.HasSuffix(key, ".*."+fn.Name()) {
+							ics = append(ics, ic)
+						}
+					}
+				}
+				g = e.verifyWith(fn, ctr, &genOptions{safety: true}, func(g *gen) { g.astValid = true; g.nilArgs = true; g.options.safety = true; g.ifaceCtrs = ics })
 			} else {
 				g = e.verify(fn, e.ctrs[funcKey(fn)], nil)
 			}
